@@ -18,7 +18,7 @@ RULE = (
     "realization weights x P x sampler (deterministic designs: axes, table, per-realization rotated, rank-deficient; "
     "built-in norm/uniform/sobol/lhs with two seeds; shared or not) x affine ensemble (distinct / identical realizations) x "
     "estimator map x merge on/off x failure pattern (none, one perturbation, one perturbation with min_success=P, one "
-    "realization) x bounds/boundary/magnitude x filter x variable scaler. Reference: exact slope combination "
+    "realization) x bounds/boundary/magnitude x filter {none, on objective 0 only, on the constraint only} x variable scaler. Reference: exact slope combination "
     "(mean: sum w_r a_r; stddev: chain rule), fixed entries ==0.0, weighted objective gradient = objective-weighted sum. "
     "Trivial: the REPORTED perturbation-difference matrix of a contributing realization (or the stacked one for merged) "
     "misses full column rank with sigma_min^2 >= 1% of total; merged estimation with neither shared perturbations nor "
@@ -29,7 +29,7 @@ ASSUMPTIONS = [
     "gradients are compared in optimizer coordinates (slope x scale with a VariableScaler)",
 ]
 BOUNDS = {
-    "quick": "V<=2, R<=2, full product of the listed alphabets",
+    "quick": "V<=2, R<=2, full product of the listed alphabets (bounds none/tight-truncate), plus an R=3 slice for the stddev estimator",
     "thorough": "V<=3, R<=3, full product of the listed alphabets",
 }
 
@@ -112,9 +112,11 @@ def build(case: dict[str, Any]) -> tuple[dict[str, Any], Any]:
         "samplers": [sconf],
     }
     if case["filter"]:
+        # "obj": the filter is mapped to objective 0 only; "con": to the constraint only (so that objective and
+        # constraint weight rows always differ)
         config["realization_filters"] = [{"method": "sort-objective", "options": {"sort": [0], "first": 0, "last": max(0, R - 2)}}]
-        config["objectives"]["realization_filters"] = [0, -1]
-        config["nonlinear_constraints"]["realization_filters"] = [0]
+        config["objectives"]["realization_filters"] = [0, -1] if case["filter"] == "obj" else [-1, -1]
+        config["nonlinear_constraints"]["realization_filters"] = [-1] if case["filter"] == "obj" else [0]
     transforms = None
     if case["scaler"]:
         transforms = make_transforms(var_scales=[2.0, 0.5, 4.0][:V], var_offsets=[1.0, -1.0, 0.0][:V])
@@ -226,7 +228,7 @@ def judge(case: dict[str, Any]) -> Judgement:
             except OptimizationAborted:
                 outcome.append("filter-abort")
                 continue
-        fmap = (0, -1, 0) if case["filter"] else (-1, -1, -1)
+        fmap = {False: (-1, -1, -1), "obj": (0, -1, -1), "con": (-1, -1, 0)}[case["filter"]]
         grads_obs = [np.asarray(gres.gradients.objectives)[0], np.asarray(gres.gradients.objectives)[1], np.asarray(gres.gradients.constraints)[0]]
         expected_all: list[Any] = [None] * 3
         for f in range(3):
@@ -324,6 +326,11 @@ def shards(tier: str, seed: int) -> list[dict[str, Any]]:
                         if tier == "quick" and sampler in ("uniform", "lhs"):
                             continue
                         out.append({"V": V, "mask": mask, "R": R, "P": P, "sampler": sampler, "tier": tier, "seed": seed})
+    if tier == "quick":
+        # a slice with three realizations (stddev needs two survivors after one realization is dropped)
+        for P in (1, 2):
+            for sampler in ("axes", "table", "norm"):
+                out.append({"V": 1, "mask": None, "R": 3, "P": P, "sampler": sampler, "tier": tier, "seed": seed, "slice": "stddev3"})
     return out
 
 
@@ -336,13 +343,17 @@ def run_shard(shard: dict[str, Any]) -> core.ShardResult:
     if sampler == "rotated":
         shareds = (False,)
     for wname, shared, gseed, ens_kind, emap, merge, failure, bounds, flt, scaler in itertools.product(
-        wnames, shareds, gseeds, ("distinct", "identical"), range(3), (False, True), FAILURES, BOUNDKINDS, (False, True), (False, True)
+        wnames, shareds, gseeds, ("distinct", "identical"), range(3), (False, True), FAILURES, BOUNDKINDS, (False, "obj", "con"), (False, True)
     ):
         if merge and emap != 0:
             continue  # stddev does not support merging (ConfigError by design)
+        if shard.get("slice") == "stddev3" and (emap == 0 or merge or bounds != "none" or flt == "con" or scaler or ens_kind != "distinct"):
+            continue
         if flt and R == 1:
             continue
-        if tier == "quick" and (bounds == "loose" or failure == "pert-strict" or gseed == 1):
+        if tier == "quick" and (bounds in ("loose", "tight-mirror") or gseed == 1):
+            continue
+        if tier == "quick" and flt == "con" and scaler:
             continue
         if sampler in BUILTIN and tier == "quick" and (gseed == 1 and shared):
             continue
